@@ -13,6 +13,8 @@
 //   st-timewait-early          TIME-WAIT left by a poll earlier than 10 s after it was (re)entered
 //   st-timewait-late           still TIME-WAIT after a complete poll at or after the 10 s deadline
 //   st-closed-by-poll          a poll closed a connection with no timeout configured and not from TIME-WAIT
+//   st-failed-call-changed-state  listen/connect returned an error but the state changed
+//   api-connect-result / api-predicates  connect's result or is_open/is_active/is_listening/may_send differ from their RFC 9293 definition
 //   impl-panic / poll-livelock the real socket panicked / Interface::poll did not stop emitting (not C17 proper,
 //                              but a concrete failing input of the code the model covers)
 
@@ -94,6 +96,22 @@ fn oracle_case(c: &Case, fails: &mut Vec<String>, stats: &mut BTreeMap<String, u
             fails.push(format!("{} :: case {} op#{} `{}`: {:?} -> {:?}: {}", class, c.id, k, op, pre, post, why));
         };
         *stats.entry(format!("edge_{}>{}", state_name(pre), state_name(post))).or_default() += (pre != post) as u64;
+        if let Some(cap) = st.lines.iter().find_map(|l| l.strip_prefix("cap ")) {
+            let cv: Vec<bool> = cap.chars().map(|x| x == '1').collect();
+            let sq = sim.sock().send_queue();
+            let want = [
+                matches!(post, S::Established | S::CloseWait),
+                matches!(post, S::Established | S::FinWait1 | S::FinWait2) || post_rq > 0,
+                matches!(post, S::Established | S::CloseWait) && sq < sim.tx_cap,
+                post_rq > 0,
+                post == S::Listen,
+                !matches!(post, S::Closed | S::TimeWait | S::Listen),
+                !matches!(post, S::Closed | S::TimeWait),
+            ];
+            if cv.len() != 7 || cv.iter().zip(want.iter()).any(|(a, b)| a != b) {
+                fail("api-predicates", format!("cap {} expected {:?} (send queue {}, recv queue {})", cap, want, sq, post_rq));
+            }
+        }
         // the window edge advertised BEFORE this event is what the event is judged against
         let conn_edge_before = conn.adv_edge;
         let _ = conn_edge_before;
@@ -106,6 +124,9 @@ fn oracle_case(c: &Case, fails: &mut Vec<String>, stats: &mut BTreeMap<String, u
                 if !ok {
                     fail("st-illegal-edge", "listen".into());
                 }
+                if st.ret != "ok" && pre != post {
+                    fail("st-failed-call-changed-state", format!("listen returned {}", st.ret));
+                }
             }
             "connect" => {
                 if st.ret == "ok" {
@@ -115,6 +136,24 @@ fn oracle_case(c: &Case, fails: &mut Vec<String>, stats: &mut BTreeMap<String, u
                 let ok = pre == post || (matches!(pre, S::Closed | S::TimeWait) && post == S::SynSent);
                 if !ok {
                     fail("st-illegal-edge", "connect".into());
+                }
+                if st.ret != "ok" && pre != post {
+                    fail("st-failed-call-changed-state", format!("connect returned {}", st.ret));
+                }
+                // the four Unaddressable arms and InvalidState, independently of the code
+                let rp = opt_i(kv(&toks, "rp")).unwrap_or(0);
+                let lp = opt_i(kv(&toks, "lp")).unwrap_or(0);
+                let ra = kv(&toks, "ra").unwrap_or("4");
+                let la = kv(&toks, "la").unwrap_or("-");
+                let want = if !matches!(pre, S::Closed | S::TimeWait) {
+                    "E1"
+                } else if rp == 0 || ra == "0" || ra == "60" || lp == 0 || la == "0" || (ra == "6" && la == "4") {
+                    "E2"
+                } else {
+                    "ok"
+                };
+                if st.ret != want {
+                    fail("api-connect-result", format!("returned {} expected {}", st.ret, want));
                 }
             }
             "close" => {
@@ -132,15 +171,15 @@ fn oracle_case(c: &Case, fails: &mut Vec<String>, stats: &mut BTreeMap<String, u
                     fail("st-illegal-edge", "abort must end in CLOSED".into());
                 }
             }
-            "send" => {
-                if let Ok(n) = st.ret.parse::<u64>() {
+            "send" | "sendf" => {
+                if let Some(Ok(n)) = st.ret.split_whitespace().next().map(|x| x.parse::<u64>()) {
                     conn.sent += n;
                 }
                 if pre != post {
                     fail("st-illegal-edge", "send changed the state".into());
                 }
             }
-            "recv" => {
+            "recv" | "recvf" => {
                 conn.consumed += st.data.len() as u64;
                 if pre != post {
                     fail("st-illegal-edge", "recv changed the state".into());
@@ -162,8 +201,9 @@ fn oracle_case(c: &Case, fails: &mut Vec<String>, stats: &mut BTreeMap<String, u
                 let (syn, fin, rst) = (fl.contains('S'), fl.contains('F'), fl.contains('R'));
                 let one_ctl = (syn as u8 + fin as u8 + rst as u8) <= 1;
                 if pre == S::Listen && post == S::SynReceived {
-                    conn.iss = if isns.is_empty() { None } else { Some(isns.remove(0)) };
-                    conn.irs = Some(seq);
+                    // a new incarnation (also after a handshake RST returned the listener to LISTEN)
+                    let iss = if isns.is_empty() { None } else { Some(isns.remove(0)) };
+                    conn = Conn { adv_edge: None, ws_ours: None, ws_peer: false, iss, irs: Some(seq), consumed: 0, sent: 0, fin_rcvd: false, listener: true };
                 }
                 if pre == S::SynSent && matches!(post, S::Established | S::SynReceived) {
                     conn.irs = Some(seq);
